@@ -130,6 +130,11 @@ fn main() {
             if args.replay.is_none() {
                 let k = smgen::knobs_for(&args.prop);
                 for _ in 0..args.n { inputs.push(smgen::gen_sm(&mut rng, &k)); }
+                if args.prop == "C08" {
+                    // crash injection: one case in five is followed by the rebuilds on what its commits left behind
+                    let base: Vec<Value> = inputs.iter().rev().take(args.n).step_by(5).take(400).cloned().collect();
+                    for b in &base { inputs.extend(smgen::crash_cases(b, 4)); }
+                }
             }
             for i in &inputs {
                 w.push(smgen::run_input(i));
